@@ -4,10 +4,12 @@ s=$1; id=$2; tier=${3:-quick}
 cd /verif
 git -C /repo diff --quiet || { echo "/repo has uncommitted changes"; exit 9; }
 git -C /repo apply /verif/seeded/$s/patch.diff || { echo "patch does not apply"; exit 8; }
+cp -f evidence/$id.json build/out/evidence-$id.keep 2>/dev/null   # evidence committed must come from the unchanged tree: keep it across this run
 start=$(date +%s)
 ./check $id --tier $tier > build/out/try-$s-$id.log 2>&1; rc=$?
 end=$(date +%s)
 git -C /repo checkout -- .
 rm -f replays/$id/viol-*
+[ -f build/out/evidence-$id.keep ] && mv -f build/out/evidence-$id.keep evidence/$id.json
 echo "seed=$s check=$id tier=$tier rc=$rc secs=$((end-start)) $(grep -E '^VIOLATION|BROKEN' build/out/try-$s-$id.log | head -3 | tr '\n' ' ')"
 grep -E "violation signature" build/out/try-$s-$id.log | head -3
